@@ -1,5 +1,6 @@
 import Unimock.Lemmas.Scan
 import Unimock.Lemmas.State
+import Unimock.Generated.ScanSkel
 /-!
 # C01 — unordered calls are answered by the first declared pattern that matches
 
@@ -103,5 +104,48 @@ example :
     let s : Shared Nat Int := ⟨.error, [⟨m, .anyOrder, [p0, p1]⟩], 0, []⟩
     (evalCall s m 2).2 = .ret 20 ∧ (evalCall s m 1).2 = .ret 10 := by
   decide
+
+
+/-! ## source agreement: the `InAnyOrder` arm of `Eval::match_call_pattern` as read from `/repo/src/eval.rs` -/
+section Source
+open ScanSkel
+
+/-- the model's `scan` result in the vocabulary of the source skeleton -/
+def selOfScan : Option (Nat × Try) → Sel
+  | none => .nothing
+  | some (i, .accept) => .selected i
+  | some (i, .noMatcher) => .patErr i
+  | some (i, .userPanic) => .unwound i
+
+theorem filterMapped_is_scan (sk : AnySkel) (hf : sk.onFalse = .none_) (ht : sk.onTrue = .someOk)
+    (he : sk.onErr = .someErr) (ps : List (Pattern α ρ)) (a : α) (k : Nat) :
+    takeNext (filterMapped sk (ps.map fun p => ofTry (tryPat p a)) k) = selOfScan (scan ps a k) := by
+  induction ps generalizing k with
+  | nil => simp [filterMapped, takeNext, scan, selOfScan]
+  | cons p ps ih =>
+    simp only [List.map_cons, filterMapped, scan]
+    cases h : tryPat p a with
+    | none => simp only [ofTry, AnySkel.arm, hf]; exact ih (k + 1)
+    | some t =>
+      cases t <;> simp [ofTry, AnySkel.arm, ht, he, takeNext, selOfScan]
+
+/-- **C01, source agreement.** The iterator chain of the `InAnyOrder` arm, as translated from the
+    current source (receiver, adaptor sequence, closure arms, `None` reporter, index passed to
+    `map_pattern_error`) and given Rust's iterator semantics, computes exactly the model's
+    first-match `scan`, for every pattern list and argument — including lists where a matcher is
+    missing (`NoMatcherFunction` at that index) or panics. -/
+theorem C01_source_scan_is_model_scan (ps : List (Pattern α ρ)) (a : α) :
+    Generated.anySkel.run (ps.map fun p => ofTry (tryPat p a)) = selOfScan (scan ps a 0) := by
+  have hc : (Generated.anySkel.overCallPatterns ∧ Generated.anySkel.reporterNone ∧ Generated.anySkel.errMapsOwnIndex ∧
+      Generated.anySkel.adaptors = [.iter, .enumerate, .filterMap, .next, .transpose, .mapErr]) := by decide
+  unfold AnySkel.run
+  rw [if_pos hc]
+  exact filterMapped_is_scan _ (by decide) (by decide) (by decide) ps a 0
+
+/-- non-vacuity: second pattern selected; a matcher-less pattern before an accepting one is an error at ITS index -/
+example :
+    Generated.anySkel.run [.f, .t, .t] = .selected 1 ∧ Generated.anySkel.run [.f, .e, .t] = .patErr 1 ∧
+    Generated.anySkel.run [.f, .f] = .nothing := by decide
+end Source
 
 end Unimock
